@@ -473,6 +473,19 @@ func c08Mismatch(x *fleetExec, e engine.Event) {
 			x.fail("mapping-mismatch", sig, "a stream whose mapping differs from the receiver's was decoded without error", "an error", "nil")
 		}
 	}
+	// a stream of two frames whose mapping blocks differ, decoded by a receiver that has no mapping yet:
+	// it adopts the first block's mapping, the second block then differs from the receiver's
+	if !nd.dirty {
+		var own []byte
+		x.lib("Encode", sig, func() { nd.real.Encode(&own, false) })
+		for k, data := range [][]byte{append(append([]byte(nil), own...), m.data...), append(append([]byte(nil), m.data...), own...)} {
+			_, derr := x.c08Decode(nd, data, c08FreshNil, sig)
+			if derr == nil {
+				x.fail("mapping-mismatch", sig, fmt.Sprintf("a stream holding two different mapping blocks (order %d) was decoded without error by a receiver without a mapping", k), "an error", "nil")
+			}
+		}
+		x.st.Fault("two-mapping-blocks-that-differ")
+	}
 	x.st.Fault("wrong-mapping")
 }
 
